@@ -316,6 +316,36 @@ def through_macro(src, i):
     return "macro_rules! mg_%d { (%s) => {\n%s\n} }\nmg_%d!(%s);" % (i, ", ".join("$t%d:ty" % k for k in range(len(tys))), body, i, ", ".join(tys))
 
 
+# An Into target written with a lifetime parameter of the type: the handler normalises every reference target to `&'static`
+# (so that `Into(&str)` can be written at all), and emits the normalised type - known finding, see known_findings.json.
+INTO_LIFETIME_PROBES = [
+    "#[derive(Educe)]\n#[educe(Into(&'a str))]\npub struct P0<'a> { pub a: &'a str, pub b: u8 }",
+    "#[derive(Educe)]\n#[educe(Into(&'a u16))]\npub struct P1<'a>(pub &'a u16);",
+    "#[derive(Educe)]\n#[educe(Into(&'a str))]\npub enum P2<'a> { A(&'a str), B { x: u8, s: &'a str } }",
+]
+
+
+def into_lifetime_probe(tie, so, work):
+    hits = []
+    for k, src in enumerate(INTO_LIFETIME_PROBES):
+        path = os.path.join(work, "into_lt_%d.rs" % k)
+        open(path, "w").write("#![allow(dead_code)]\nuse educe::Educe;\n%s\n" % src)
+        rc, diags = compile_lib(path, so)
+        tie["evaluations"] += 1
+        errs = [d for d in diags if d.get("level") == "error"]
+        if not errs:
+            continue
+        msg = (errs[0].get("message") or "")[:200]
+        known = [f for f in common.known_findings() if f.get("status") == "open" and f.get("property") == "C01"
+                 and f.get("matcher", {}).get("kind") == "into-target-with-type-lifetime"]
+        if known and ("lifetime may not live long enough" in msg or "lifetime" in msg):
+            hits.append("P%d" % k)
+        else:
+            tie["failing"].append({"what": "generated code for an accepted, well-typed definition does not compile", "rust_source": src, "observed": msg})
+    if hits:
+        tie["known"].append("`Into(&'a T)` with a lifetime parameter of the type: the impl is emitted for `&'static T` and does not compile (%s)" % ", ".join(hits))
+
+
 def compile_lib(path, so):
     cmd = ["rustc", "--edition", "2021", "--crate-type", "lib", "--emit=metadata", "--error-format=json", "-C", "debuginfo=0",
            "--extern", "educe=" + so, "--out-dir", os.path.dirname(path), path]
@@ -428,6 +458,7 @@ def main(tier):
         if rc != 0 and len(tie["failing"]) == before and not tie["broken"]:
             tie["broken"].append("harness (%s): rustc failed without a located diagnostic" % label)
         tie["distinct_nontrivial"] += len(by_id) - (len(tie["failing"]) - before)
+    into_lifetime_probe(tie, so, work)
     # acceptance and the outcome model (B4) on the generic pool
     try:
         real = attr.expand_real(gdefs, group=True)
